@@ -93,7 +93,7 @@ pub fn coverage_from_agg(a: &Agg, rule: &str, extra: Value) -> Value {
         "select_ties": a.select_ties,
         "executions_with_interesting_event": a.interesting_execs,
         "executions_by_preemptions": a.preempt_hist,
-        "programs_completed_per_bound": a.completed_at.iter().map(|(b, n)| (b.to_string(), json!(n))).collect::<serde_json::Map<_, _>>(),
+        "programs_completed_per_bound": a.completed_at.iter().map(|(b, n)| (if *b >= 100 { format!("deviation-bound {}", b - 100) } else { format!("preemption-bound {}", b) }, json!(n))).collect::<serde_json::Map<_, _>>(),
         "max_choice_depth": a.max_depth,
         "exhaustive": exhaustive,
         "caps_hit": a.incomplete.iter().take(10).collect::<Vec<_>>(),
